@@ -240,12 +240,15 @@ def _cycles(adj: int, order: int) -> bool:
     return result(ok, cyclic)
 
 
-def _variables_through_fragments(order: int, defined: bool, depth: int, used_in_op: bool) -> bool:
+def _variables_through_fragments(order: int, defined: bool, depth: int, used_in_op: bool, opname: int = 0) -> bool:
     """
-    pre: 0 <= order < 6 and 0 <= depth <= 3
+    pre: 0 <= order < 6 and 0 <= depth <= 3 and 0 <= opname <= 4
+    pre: shard_of(order)
     post: _
     """
     perm = pick(order, tuple(itertools.permutations(range(3))))
+    # operations and fragments live in separate namespaces: the operation may be anonymous or carry the name of any of the fragments
+    ON = pick(opname, ("", "Q", "Fa", "Fb", "Fc"))
     D = concrete_int(depth, 0, 3)
     DEF, UOP = (True if defined else False), (True if used_in_op else False)
     with untraced():
@@ -254,7 +257,7 @@ def _variables_through_fragments(order: int, defined: bool, depth: int, used_in_
         frs = ["fragment Fa on User { name best { ...Fb } %s }" % (use if D == 1 else ""),
                "fragment Fb on User { name best { ...Fc } %s }" % (use if D == 2 else ""),
                "fragment Fc on User { name %s }" % (use if D == 3 else "")]
-        op = "query %s { me { ...Fa %s } }" % ("($v: Int)" if DEF else "", "t: score(scale: $v)" if UOP else "")
+        op = "query %s%s { me { ...Fa %s } }" % (ON, "($v: Int)" if DEF else "", "t: score(scale: $v)" if UOP else "")
         text = op + " " + " ".join(frs[i] for i in perm)
         used = UOP or D > 0
         rules, verdict = violated_rules(parse(text))
@@ -575,9 +578,9 @@ CONDITIONS = [
     Cond(name="cycles", fn=_cycles, quick=100, thorough=300, shards_quick=8, shards_thorough=8, per_path=60,
          bound="EVERY directed spread graph on 3 fragments (512 adjacency matrices incl. self loops) x all 6 definition orders: NoFragmentCycles reports iff some fragment reaches itself",
          symbolic={"adj": "choice: adjacency matrix", "order": "choice: definition order"}, witness={"adj": 2, "order": 0}),
-    Cond(name="variables_through_fragments", fn=_variables_through_fragments, quick=60, thorough=120,
-         bound="variable used at depth 0..3 of a fragment chain and/or in the operation, defined or not, all 6 fragment definition orders: exactly NoUndefinedVariables / NoUnusedVariables as the spec says",
-         symbolic={"order": "choice", "defined": "choice", "depth": "choice", "used_in_op": "choice"}, witness={"order": 0, "defined": True, "depth": 3, "used_in_op": False}),
+    Cond(name="variables_through_fragments", fn=_variables_through_fragments, quick=60, thorough=120, shards_quick=6, shards_thorough=6,
+         bound="variable used at depth 0..3 of a fragment chain and/or in the operation, defined or not, all 6 fragment definition orders, the operation anonymous / named Q / named like one of the fragments (separate namespaces): exactly NoUndefinedVariables / NoUnusedVariables as the spec says",
+         symbolic={"order": "choice", "defined": "choice", "depth": "choice", "used_in_op": "choice"}, witness={"order": 0, "defined": True, "depth": 3, "used_in_op": False, "opname": 0}),
     Cond(name="operation_names", fn=_operation_names, quick=60, thorough=120,
          bound="every sequence of 1..3 operations from {anonymous, A, B, mutation A}: UniqueOperationNames and LoneAnonymousOperation exactly as the spec says",
          symbolic={"a,b,c": "choice"}, witness={"a": 1, "b": 2, "c": -1}),
